@@ -179,7 +179,36 @@ class ModeMachine(ohist.Machine):
                 if os.path.exists(target):
                     os.unlink(target)
                 try:
-                    return tdf.copy(target)
+                    dup = tdf.copy(target)
+                    # the copy is a new object in the default (read-only, no context) mode, whatever mode the
+                    # source is in: mutating through it without allow_write() must be refused and must touch
+                    # neither file
+                    with open(target, "rb") as f:
+                        copy_before = f.read()
+                    src_before = impl.sha()
+                    blk = kdriver.make_block(R.T_OPT, 0)
+                    for how in ("no-context", "plain-context"):
+                        try:
+                            if how == "no-context":
+                                dup.add_block(blk)
+                            else:
+                                with dup:
+                                    dup.add_block(blk)
+                            accepted = True
+                        except Exception:  # noqa: BLE001
+                            accepted = False
+                        with open(target, "rb") as f:
+                            copy_after = f.read()
+                        if impl.sha() != src_before or copy_after != copy_before:
+                            which = "the SOURCE file" if impl.sha() != src_before else "the copy"
+                            raise self.V("write-outside-write-context", f"add_block through the object returned by copy() ({how}, no allow_write) "
+                                         f"changed {which}", "copy-object")
+                        if accepted:
+                            raise self.V("mutator-not-refused", f"add_block through the object returned by copy() ({how}, no allow_write) "
+                                         f"returned normally", "copy-object")
+                    if env.open_fds_on(target):
+                        raise self.V("descriptor-left-open", "a descriptor on the copy is still open", "copy-object")
+                    return dup
                 finally:
                     if os.path.exists(target):
                         os.unlink(target)
